@@ -3,7 +3,7 @@
 // tier: quick
 // bound: two authors, keys over {a, ab, b, [61 ff], [61 ff 01], [62]}, a fixed history of 15 inserts incl. three deletion markers, an out-of-order arrival below a prefix and one
 // prefix deletion that removes a longer key (dangling by-key index row in the middle of the key order); every query over kind {flat by author-key, flat by key-author, latest-per-key} x author filter {any, a0, a1} x key filter
-// {any, exact k, prefix p for every k, p in the key universe and [61], [ff]} x direction x include_empty x offset {0,1,2} x limit {none,1,2}
+// {any, exact k, prefix p for every k, p in the key universe and [61], [ff]} x direction x include_empty x offset {0,1,2} x limit {none,0,1,2}
 // compared with the definition of C05 (filter, order, group latest per key over all authors, then author filter, skip, take).
 // Also point lookups (get_exact) against the same reference.
 #[cfg(test)]
@@ -82,7 +82,7 @@ mod verif_rp_c05_query {
         for k in key_universe.iter().chain([vec![0x61u8], vec![0xffu8], vec![0x61u8, 0xff, 0xff]].iter()) { key_filters.push((1, k.clone())); key_filters.push((2, k.clone())); }
         let mut n = 0usize;
         for kind in 0u8..3 { for author in [None, Some(0usize), Some(1usize)] { for kf in &key_filters { for desc in [false, true] { for include_empty in [false, true] {
-            for offset in 0usize..3 { for limit in [None, Some(1usize), Some(2usize)] {
+            for offset in 0usize..3 { for limit in [None, Some(0usize), Some(1usize), Some(2usize)] {
                 let dir = if desc { SortDirection::Desc } else { SortDirection::Asc };
                 let q: Query = if kind == 2 {
                     let mut b = Query::single_latest_per_key().sort_direction(dir).offset(offset as u64);
